@@ -45,6 +45,19 @@ Proof.
   - apply PS.elements_spec1 in I. apply SetoidList.InA_alt in I. destruct I as (y & -> & I). exact I.
 Qed.
 
+Lemma unique_merge_comm_refuted_lemma_enum_a : enumerates [2; 4] (s_elems wit_a).
+Proof.
+  apply enumerates_elements. vm_compute. intros x. split.
+  - intros [<-|[<-|[]]]; eexists; split; eauto.
+  - intros (p & -> & [<-|[<-|[]]]); auto.
+Qed.
+Lemma unique_merge_comm_refuted_lemma_enum_b : enumerates [1; 3] (s_elems wit_b).
+Proof.
+  apply enumerates_elements. vm_compute. intros x. split.
+  - intros [<-|[<-|[]]]; eexists; split; eauto.
+  - intros (p & -> & [<-|[<-|[]]]); auto.
+Qed.
+
 Lemma unique_merge_comm_refuted_lemma :
   exists a b orda ordb,
     wfs uniques_max_size a /\ wfs uniques_max_size b /\ enumerates orda (s_elems a) /\ enumerates ordb (s_elems b) /\
@@ -324,4 +337,141 @@ Proof.
   - split; auto.
   - split; auto. rewrite Z.max_comm, orb_comm. eapply pre_equal; [|exact P2].
     intros q. rewrite !PS.union_spec. tauto.
+Qed.
+
+(* =========================================================================================== *)
+(* Any merge tree of sketches (repaired variant): the result is the canonical sketch of all leaves *)
+
+Inductive evals (M : Z) : tree sk -> sk -> Prop :=
+| ev_leaf a : evals M (Leaf a) a
+| ev_node l r a b ord : evals M l a -> evals M r b -> enumerates ord (s_elems b) ->
+    evals M (Node l r) (merge_sk M true a b ord).
+
+Fixpoint lskip (ls : list sk) : Z := match ls with [] => 0 | a :: r => Z.max (s_skip a) (lskip r) end.
+Fixpoint lunion (ls : list sk) : PS.t := match ls with [] => PS.empty | a :: r => PS.union (s_elems a) (lunion r) end.
+Fixpoint lzero (ls : list sk) : bool := match ls with [] => false | a :: r => s_zero a || lzero r end.
+
+Lemma lskip_nonneg ls : 0 <= lskip ls.
+Proof. induction ls; simpl; lia. Qed.
+Lemma lskip_app a b : lskip (a ++ b) = Z.max (lskip a) (lskip b).
+Proof. induction a; simpl; [pose proof (lskip_nonneg b); lia | rewrite IHa; lia]. Qed.
+Lemma lunion_in ls p : PS.In p (lunion ls) <-> exists a, In a ls /\ PS.In p (s_elems a).
+Proof.
+  induction ls as [|x ls IH]; simpl.
+  - split; [intros H; apply PSF.empty_iff in H; tauto | intros (a & [] & _)].
+  - rewrite PS.union_spec, IH. split.
+    + intros [H|(a & I & H)]; [exists x; auto | exists a; auto].
+    + intros (a & [<-|I] & H); [auto | right; exists a; auto].
+Qed.
+Lemma lzero_app a b : lzero (a ++ b) = lzero a || lzero b.
+Proof. induction a; simpl; [reflexivity | rewrite IHa, orb_assoc; reflexivity]. Qed.
+Lemma lzero_true ls : lzero ls = true <-> exists a, In a ls /\ s_zero a = true.
+Proof.
+  induction ls as [|x ls IH]; simpl.
+  - split; [discriminate | intros (a & [] & _)].
+  - rewrite orb_true_iff, IH. split.
+    + intros [H|(a & I & H)]; [exists x; auto | exists a; auto].
+    + intros (a & [<-|I] & H); [auto | right; exists a; auto].
+Qed.
+
+Lemma lskip_perm a b : Permutation a b -> lskip a = lskip b.
+Proof. induction 1; simpl; lia. Qed.
+Lemma lunion_perm a b : Permutation a b -> PS.Equal (lunion a) (lunion b).
+Proof.
+  intros P p. rewrite !lunion_in. split; intros (x & I & H); exists x; split; auto;
+    [eapply Permutation_in; eauto | eapply Permutation_in; [apply Permutation_sym|]; eauto].
+Qed.
+Lemma lzero_perm a b : Permutation a b -> lzero a = lzero b.
+Proof.
+  intros P. apply eq_true_iff_eq. rewrite !lzero_true. split; intros (x & I & H); exists x; split; auto;
+    [eapply Permutation_in; eauto | eapply Permutation_in; [apply Permutation_sym|]; eauto].
+Qed.
+
+Lemma canon_wfs M d0 X z s : 0 <= d0 -> bounded X -> canon M d0 X z s -> wfs M s.
+Proof.
+  intros Hd HB [(A & B & C & D & F) L]. split; [lia|]. split; [|split; [rewrite C; exact D|exact L]].
+  intros p I. apply B in I. apply filt_spec in I. destruct I as [I G]. split; auto.
+Qed.
+
+Lemma filt_union_lift d sa sb Xl Xr ea eb :
+  0 <= sa <= d -> 0 <= sb <= d -> PS.Equal ea (filt sa Xl) -> PS.Equal eb (filt sb Xr) ->
+  PS.Equal (filt d (PS.union ea eb)) (filt d (PS.union Xl Xr)).
+Proof.
+  intros Ha Hb Ea Eb p. rewrite !filt_spec, !PS.union_spec, (Ea p), (Eb p), !filt_spec. split.
+  - intros [[[I _]|[I _]] G]; auto.
+  - intros [[I|I] G]; split; auto; [left|right]; split; auto; unfold goodp in *; eapply good_mono; eauto.
+Qed.
+
+Lemma b2z_orb_l a b : b2z a <= b2z (a || b).
+Proof. destruct a, b; simpl; lia. Qed.
+Lemma b2z_orb_r a b : b2z b <= b2z (a || b).
+Proof. destruct a, b; simpl; lia. Qed.
+
+Lemma canon_lift M Dl Dr Xl Xr zl zr a b s : 0 <= Dl -> 0 <= Dr ->
+  canon M Dl Xl zl a -> canon M Dr Xr zr b ->
+  canon M (Z.max (s_skip a) (s_skip b)) (PS.union (s_elems a) (s_elems b)) (s_zero a || s_zero b) s ->
+  canon M (Z.max Dl Dr) (PS.union Xl Xr) (zl || zr) s.
+Proof.
+  intros HDl HDr [(A1 & B1 & C1 & D1 & F1) L1] [(A2 & B2 & C2 & D2 & F2) L2] [(P1 & P2 & P3 & P4 & P5) L].
+  rewrite C1, C2 in *.
+  split; [|exact L]. split; [lia|]. split; [|split; [exact P3|split; [exact P4|]]].
+  - intros p. rewrite (P2 p). apply filt_union_lift with (sa := s_skip a) (sb := s_skip b); auto; lia.
+  - intros d Hd.
+    destruct (Z_lt_dec d (s_skip a)) as [Ha|Ha].
+    + specialize (F1 d ltac:(lia)).
+      assert (S : PS.Subset (filt d Xl) (filt d (PS.union Xl Xr))).
+      { apply filt_subset. intros q I. apply PS.union_spec. auto. }
+      pose proof (card_subset _ _ S). pose proof (b2z_orb_l zl zr). lia.
+    + destruct (Z_lt_dec d (s_skip b)) as [Hb|Hb].
+      * specialize (F2 d ltac:(lia)).
+        assert (S : PS.Subset (filt d Xr) (filt d (PS.union Xl Xr))).
+        { apply filt_subset. intros q I. apply PS.union_spec. auto. }
+        pose proof (card_subset _ _ S). pose proof (b2z_orb_r zl zr). lia.
+      * specialize (P5 d ltac:(lia)).
+        rewrite (card_equal _ _ (filt_union_lift d (s_skip a) (s_skip b) Xl Xr _ _ ltac:(lia) ltac:(lia) B1 B2)) in P5.
+        exact P5.
+Qed.
+
+Theorem tree_canon M t s : 1 <= M -> Forall (wfs M) (leaves t) -> evals M t s ->
+  canon M (lskip (leaves t)) (lunion (leaves t)) (lzero (leaves t)) s /\ bounded (lunion (leaves t)).
+Proof.
+  intros HM W E. induction E as [a | l r a b ord El IHl Er IHr En].
+  - simpl in *. inversion W as [|? ? Wa _]; subst. destruct Wa as (A0 & A1 & A2 & A3).
+    assert (HB : bounded (PS.union (s_elems a) PS.empty)).
+    { intros p I. apply PS.union_spec in I. destruct I as [I|I]; [apply A1; auto | apply PSF.empty_iff in I; tauto]. }
+    split; [|exact HB]. split; [|exact A3].
+    split; [lia|]. split; [|split; [apply eq_sym, orb_false_r|split; [rewrite orb_false_r; exact A2|]]].
+    + intros p. rewrite filt_spec, PS.union_spec. split.
+      * intros I. split; auto. apply A1; auto.
+      * intros [[I|I] _]; auto. apply PSF.empty_iff in I. tauto.
+    + intros d Hd. lia.
+  - simpl in W. apply Forall_app in W. destruct W as [Wl Wr].
+    destruct (IHl Wl) as [Ca HBa]. destruct (IHr Wr) as [Cb HBb].
+    pose proof (lskip_nonneg (leaves l)) as Nl. pose proof (lskip_nonneg (leaves r)) as Nr.
+    pose proof (canon_wfs _ _ _ _ _ Nl HBa Ca) as Wa. pose proof (canon_wfs _ _ _ _ _ Nr HBb Cb) as Wb.
+    destruct (merge_canon M a b ord HM Wa Wb En) as [Cs _].
+    pose proof (canon_lift _ _ _ _ _ _ _ _ _ _ Nl Nr Ca Cb Cs) as C.
+    simpl. rewrite lskip_app, lzero_app.
+    assert (EqU : PS.Equal (PS.union (lunion (leaves l)) (lunion (leaves r))) (lunion (leaves l ++ leaves r))).
+    { intros p. rewrite PS.union_spec, !lunion_in. split.
+      - intros [(x & I & H)|(x & I & H)]; exists x; rewrite in_app_iff; auto.
+      - intros (x & I & H). apply in_app_iff in I. destruct I; [left|right]; exists x; auto. }
+    split.
+    + destruct C as [P L]. split; auto. eapply pre_equal; eauto.
+    + intros p I. apply EqU in I. apply PS.union_spec in I. destruct I; auto.
+Qed.
+
+(* any two merge trees over permutations of the same well-formed sketches, any table orders *)
+Theorem unique_merge_tree_perm M t1 t2 s1 s2 : 1 <= M ->
+  Forall (wfs M) (leaves t1) -> Permutation (leaves t1) (leaves t2) ->
+  evals M t1 s1 -> evals M t2 s2 ->
+  s_skip s1 = s_skip s2 /\ PS.Equal (s_elems s1) (s_elems s2) /\ s_zero s1 = s_zero s2 /\ s_cnt s1 = s_cnt s2 /\
+  s_size_as_is s1 = s_size_as_is s2.
+Proof.
+  intros HM W P E1 E2.
+  assert (W2 : Forall (wfs M) (leaves t2)) by (eapply Permutation_Forall; eauto).
+  destruct (tree_canon M t1 s1 HM W E1) as [C1 _]. destruct (tree_canon M t2 s2 HM W2 E2) as [[P2 L2] _].
+  eapply canon_unique; [exact C1|].
+  rewrite (lskip_perm _ _ P), (lzero_perm _ _ P). split; auto.
+  eapply pre_equal; [|exact P2]. apply PSP.equal_sym. apply lunion_perm. exact P.
 Qed.
